@@ -19,11 +19,7 @@ pub fn render_outputs(outs: &[egglog::CommandOutput]) -> Vec<String> {
 
 pub fn run_job(job: &Value) -> Value {
     let threads = job["threads"].as_u64().unwrap_or(1) as usize;
-    let mut eg = match job["mode"].as_str().unwrap_or("plain") {
-        "term" => egglog::EGraph::new_with_term_encoding(),
-        "proofs" => egglog::EGraph::new_with_proofs(),
-        _ => egglog::EGraph::default(),
-    }.with_num_threads(threads);
+    let mut eg = engine::fresh(job["mode"].as_str().unwrap_or("plain"), threads);
     if let Some(false) = job["seminaive"].as_bool() { eg.seminaive = false; }
     let mut outcomes = vec![]; let mut outputs = vec![];
     for ch in job["chunks"].as_array().cloned().unwrap_or_default() {
